@@ -577,6 +577,109 @@ def alias_local_design(order, w=4, top_is_system=False):
     return dict(hw=hw, top=top, kind='aliaslocal', inputs={'a': a}, outputs=outs, desc=dict(order=list(order), w=w))
 
 
+def kwport_design(n_in, n_out, n_io=None, w=4, leaf='struct', depth=2):
+    """reserved-word (or any) port names on NON-inlined children at depth >= 2:
+         Top(a -> r [, inout p]) -> Mid_1 -> … -> Mid_depth-1 -> Leaf, every level below Top has input port n_in, output
+         port n_out and (optionally) inout port n_io; leaf = 'struct' (user structural block around Not), 'body' (primitive
+         providing its own verilogBody) or 'reg' (structural block around a Reg, clocked)."""
+    import py4hw
+    L = py4hw
+    from py4hw.rtl_generation import getValidVerilogName
+    hw, top = fresh()
+
+    class LeafS(L.Logic):
+        def __init__(self, parent, name, a, r, io):
+            super().__init__(parent, name)
+            self.addIn(n_in, a)
+            self.addOut(n_out, r)
+            if io is not None:
+                self.addInOut(n_io, io)
+            if leaf == 'reg':
+                L.Reg(self, 'ff', a, r)
+            else:
+                L.Not(self, 'inv', a, r)
+
+    class LeafB(L.Logic):
+        def __init__(self, parent, name, a, r, io):
+            super().__init__(parent, name)
+            self.a = self.addIn(n_in, a)
+            self.r = self.addOut(n_out, r)
+            if io is not None:
+                self.addInOut(n_io, io)
+
+        def propagate(self):
+            self.r.put(~self.a.get())
+
+        def verilogBody(self):
+            return 'assign {} = ~{};\n'.format(getValidVerilogName(n_out), getValidVerilogName(n_in))
+
+    class Mid(L.Logic):
+        def __init__(self, parent, name, a, r, io, lvl):
+            super().__init__(parent, name)
+            self.addIn(n_in, a)
+            self.addOut(n_out, r)
+            if io is not None:
+                self.addInOut(n_io, io)
+            t = self.wire('t', w)
+            L.Buf(self, 'b', a, t)
+            if lvl > 1:
+                Mid(self, 'm', t, r, io, lvl - 1)
+            else:
+                (LeafB if leaf == 'body' else LeafS)(self, 'leaf', t, r, io)
+    a, r = hw.wire('a', w), hw.wire('r', w)
+    top.addIn('a', a)
+    top.addOut('r', r)
+    io = None
+    if n_io is not None:
+        io = L.BidirWire(hw, 'pad', 1) if hasattr(L, 'BidirWire') else hw.wire('pad', 1)
+        top.addInOut('pad', io)
+    Mid(top, 'm', a, r, io, depth - 1)
+    return dict(hw=hw, top=top, kind='kwport', inputs={'a': a}, outputs={'r': r},
+                desc=dict(n_in=n_in, n_out=n_out, n_io=n_io, w=w, leaf=leaf, depth=depth))
+
+
+def seq_design(rng, w=8):
+    """hierarchy for request SEQUENCES on one generator: Top{A: Blk, B: Blk, Add} where both blocks contain modules with
+    shared names (Add<w>, Reg<w>, Neg<w>, Abs<w>)"""
+    import py4hw
+    L = py4hw
+    hw, top = fresh()
+
+    class Blk(L.Logic):
+        def __init__(self, parent, name, a, b, r, kinds):
+            super().__init__(parent, name)
+            self.addIn('a', a)
+            self.addIn('b', b)
+            self.addOut('r', r)
+            cur = self.wire('s', w)
+            L.Add(self, 'add', a, b, cur)
+            for k, kind in enumerate(kinds):
+                nxt = r if k == len(kinds) - 1 else self.wire(f't{k}', w)
+                if kind == 'reg':
+                    L.Reg(self, f'u{k}', cur, nxt)
+                elif kind == 'neg':
+                    L.Neg(self, f'u{k}', cur, nxt)
+                elif kind == 'abs':
+                    L.Abs(self, f'u{k}', cur, nxt)
+                elif kind == 'add':
+                    L.Add(self, f'u{k}', cur, b, nxt)
+                else:
+                    L.Not(self, f'u{k}', cur, nxt)
+                cur = nxt
+    pool = ['reg', 'neg', 'abs', 'add', 'not']
+    ka = [rng.choice(pool) for _ in range(rng.randint(1, 4))]
+    kb = [rng.choice(pool) for _ in range(rng.randint(1, 4))]
+    a, b, r = hw.wire('a', w), hw.wire('b', w), hw.wire('r', w)
+    top.addIn('a', a)
+    top.addIn('b', b)
+    top.addOut('r', r)
+    ra, rb = top.wire('ra', w), top.wire('rb', w)
+    A = Blk(top, 'A', a, b, ra, ka)
+    B = Blk(top, 'B', b, a, rb, kb)
+    L.Add(top, 'sum', ra, rb, r)
+    return dict(hw=hw, top=top, A=A, B=B, kind='seq', desc=dict(w=w, A=ka, B=kb))
+
+
 # ------------------------------------------------------------------------------------------------ hierarchies
 def hier_design(rng, depth=2, fan=3, wmax=8):
     """random nested hierarchy of user structural blocks (unique module per instance) whose leaves are library blocks
